@@ -108,7 +108,7 @@ class Ctx:
         self._gofacts = out if rc == 0 else None
         return self._gofacts
 
-    def callseq(self, pkg, func, methods, funcs=()):
+    def callseq(self, pkg, func, methods, funcs=(), leaf=()):
         """Source-order sequence of the selected method calls made by `func` of
         package directory `pkg` of the repository under test, same-package
         callees inlined transitively, receivers named by declared type (see
@@ -118,7 +118,7 @@ class Ctx:
         if not g:
             return None
         rc, out = sh([g, "callseq", "-repo", REPO, "-pkg", pkg, "-func", func, "-methods", ",".join(methods),
-                      "-funcs", ",".join(funcs)], timeout=120)
+                      "-funcs", ",".join(funcs)] + (["-leaf", ",".join(leaf)] if leaf else []), timeout=120)
         if rc != 0:
             return "gofacts callseq failed: " + out[-300:]
         try:
